@@ -48,6 +48,12 @@ func (r *Report) Assumption(s string) { r.Assume[s] = true }
 func (r *Report) Analysed(fn string) { r.Funcs[fn] = true }
 
 func (r *Report) add(rule, construct, pos, verdict, why string) {
+	// a site inside a shared helper is visited once per caller: keep one copy
+	for _, o := range r.Obs {
+		if o.Rule == rule && o.Construct == construct && o.Pos == pos && o.Verdict == verdict && o.Why == why {
+			return
+		}
+	}
 	r.Obs = append(r.Obs, Ob{Rule: rule, Construct: construct, Pos: pos, Verdict: verdict, Why: why, Config: r.Config})
 }
 
